@@ -251,6 +251,17 @@ pub fn finish(ctx: &Ctx, rep: &Report, meta: Meta) -> i32 {
     let mut n_new = 0u64;
     let mut n_known = 0u64;
     let mut lines = vec![];
+    // stale replay files of earlier runs of this property/profile are removed first
+    {
+        let dir = ctx.root.join("replays").join(&ctx.prop);
+        if let Ok(rd) = std::fs::read_dir(&dir) {
+            for e in rd.flatten() {
+                if e.file_name().to_string_lossy().starts_with(&format!("{}-", ctx.profile)) {
+                    let _ = std::fs::remove_file(e.path());
+                }
+            }
+        }
+    }
     for ((prop, key), v) in &rep.viol {
         if prop != &ctx.prop {
             continue;
@@ -263,7 +274,7 @@ pub fn finish(ctx: &Ctx, rep: &Report, meta: Meta) -> i32 {
         n_new += 1;
         let dir = ctx.root.join("replays").join(prop);
         let _ = std::fs::create_dir_all(&dir);
-        let name = format!("{}-{:016x}.json", sanitize(&key.chars().take(60).collect::<String>()), crate::fnv64(key.as_bytes()));
+        let name = format!("{}-{}-{:016x}.json", ctx.profile, sanitize(&key.chars().take(60).collect::<String>()), crate::fnv64(key.as_bytes()));
         let path = dir.join(name);
         let body = json!({
             "property": prop, "key": key, "what": v.what, "profile": ctx.profile, "tier": ctx.tier.name(),
